@@ -285,7 +285,6 @@ func checkPacket(c *fw.Case, b []byte, v6 bool, origin string) {
 		feat = fam(v6) + "_short_header"
 		c.Count("short_header_inputs", 1)
 	}
-	c.Note("%s %s len=%d % x", origin, fam(v6), len(b), b)
 	got := parse(b, v6)
 	c.Count("parse_calls", 1)
 	if got.pan != nil {
@@ -440,6 +439,7 @@ func runLengths(c *fw.Case) {
 			maxLen = 100
 		}
 		for n := 1; n <= maxLen; n++ {
+			c.Note("group len: %s length %d", fam(v6), n)
 			for i := 0; i < perLen; i++ {
 				var b []byte
 				origin := "structured"
@@ -475,6 +475,7 @@ func runProduct(c *fw.Case, k int) {
 	first := true
 	for p := k * 8; p < k*8+8; p++ {
 		proto := byte(p)
+		c.Note("group prod: protocol %d", p)
 		for _, v6 := range []bool{false, true} {
 			hl := 20
 			if v6 {
@@ -517,7 +518,7 @@ func runProduct(c *fw.Case, k int) {
 			}
 			// fragment variants (v4 only has a fragment field in the fixed header)
 			if !v6 {
-				for _, off := range []uint16{1, 2, 185, 255, 256, 8191} {
+				for _, off := range []uint16{1, 2, 185, 255, 256, 512, 1024, 2048, 4096, 8191} {
 					for _, mf := range []bool{false, true} {
 						h := capfn.Hdr{Src: src, Dst: dst, Proto: proto, Sport: 40000, Dport: 443, Aux: 0x10, FragOff: off, MoreFrag: mf}
 						checkPacket(c, h.Bytes(), false, "product_fragment")
